@@ -26,6 +26,7 @@ Inductive hname := HCookieName | HXAuthToken | HXCookieName.
 
 Inductive carrier :=
 | KCookie                     (* Cookie: auth_cookie=<tok> *)
+| KCookieNamed (n : pname)    (* Cookie: <n>=<tok>, a cookie named like a form field *)
 | KBearer                     (* Authorization: Bearer <tok> *)
 | KBearerLower                (* Authorization: bearer <tok> *)
 | KBasicPass                  (* Authorization: Basic base64(<user>:<tok>) *)
@@ -56,7 +57,7 @@ Definition reads (c : consumer) (k : carrier) : bool :=
   | KBearer => match c with CUserinfo => true | _ => false end
   | KQuery n | KForm n => match form_name c with Some m => pname_eqb n m | None => false end
   | KRow => match c with CStorage _ _ _ _ => true | _ => false end
-  | KBearerLower | KBasicPass | KBasicUser | KHeader _ => false
+  | KCookieNamed _ | KBearerLower | KBasicPass | KBasicUser | KHeader _ => false
   end.
 
 (* one request that presents [t] in carrier [k] and no other credential of that consumer's kind *)
@@ -90,12 +91,22 @@ Definition accepts_via_bearer_branch (i : idp) (now : Z) (c : consumer) (k : car
    accepted?, whom the answer named (when the harness can see it) *)
 Definition carrier_case := (nat * consumer * carrier * Z * Z * bool * option bs)%type.
 
+(* accepted? and whom the answer named (re-issued artefacts are compared by the stages that present
+   the artefact in its usual carrier) *)
+Definition verdict_matches (o : out) (ok : bool) (user : option bs) : bool :=
+  Bool.eqb (o_ok o) ok &&
+  match user, o_user o with
+  | Some u, Some u' => bs_eqb u u'
+  | Some _, None => false
+  | None, _ => true
+  end.
+
 Definition carrier_case_bad (i : idp) (toks : list token) (k : carrier_case) : bool :=
   let '(ti, c, kr, t0, t1, ok, user) := k in
   match nth_opt toks ti with
   | None => true
   | Some t =>
-      negb (out_matches c (exec_via i t0 c kr t) ok user [] || out_matches c (exec_via i t1 c kr t) ok user [])
+      negb (verdict_matches (exec_via i t0 c kr t) ok user || verdict_matches (exec_via i t1 c kr t) ok user)
   end.
 
 (* the property's predicate on an observation (conclusion of c04_accept_sound_any_carrier): the
